@@ -1,7 +1,7 @@
 (* Properties_C13.v — C13: parse failures name the right error and line and
    hand back nothing partial; every code maps to its documented message. *)
 From Coq Require Import String Lia List.
-From Econf Require Import Bytes BytesFacts Grammar CommentLoop LineBase ParserFacts ParserFile BadLines BadFacts
+From Econf Require Import Bytes BytesFacts Grammar CommentLoop LineBase ParserFacts ParserFile BadLines BadFacts LayeredModel LayeredScenario WorldFacts
                           Scenario Generated_facts.
 Local Open Scope N_scope.
 
@@ -56,6 +56,14 @@ Print Assumptions C13_messages.
 Theorem C13_errstring : forall e, err_string (err_code e) = err_message e.
 Proof. intros e. destruct e; vm_compute; reflexivity. Qed.
 Print Assumptions C13_errstring.
+
+(* the error location is a record, not a message that is consumed: asking for it changes nothing, asking twice gives
+   the same file and line *)
+Theorem C13_location_is_a_record : forall w,
+  fst (wstep w WErrLoc) = w /\
+  snd (wstep (fst (wstep w WErrLoc)) WErrLoc) = snd (wstep w WErrLoc).
+Proof. exact errloc_is_a_record. Qed.
+Print Assumptions C13_location_is_a_record.
 
 Example C13_demo :
   let pre := [LComment [] 35 (bs " x"); LKey (mkKL [] (bs "a") [] (Some 61) [] (VPlain (bs "1")) [] None);
